@@ -101,6 +101,8 @@ theorem pres_matchXtype (t r h) : Pres (matchXtype t r h) := by unfold matchXtyp
 macro_rules | `(tactic| pres_lemma) => `(tactic| with_reducible apply pres_matchXtype)
 theorem pres_guessXtype (t r) : Pres (guessXtype t r) := by unfold guessXtype; pres_auto
 macro_rules | `(tactic| pres_lemma) => `(tactic| with_reducible apply pres_guessXtype)
+theorem pres_resolveXtype (t r h) : Pres (resolveXtype t r h) := by unfold resolveXtype; pres_auto
+macro_rules | `(tactic| pres_lemma) => `(tactic| with_reducible apply pres_resolveXtype)
 theorem pres_nextFresh : Pres nextFresh := by unfold nextFresh; pres_auto
 macro_rules | `(tactic| pres_lemma) => `(tactic| with_reducible apply pres_nextFresh)
 theorem pres_setStringPod (n a w v) : Pres (setStringPod n a w v) := by unfold setStringPod; pres_auto
